@@ -33,6 +33,7 @@ import (
 	"github.com/oxia-db/oxia/common/object"
 	"github.com/oxia-db/oxia/common/process"
 	time2 "github.com/oxia-db/oxia/common/time"
+	"github.com/oxia-db/oxia/common/vhook"
 
 	"github.com/oxia-db/oxia/common/metric"
 	"github.com/oxia-db/oxia/proto"
@@ -397,11 +398,17 @@ func (t *wal) runSync() {
 		var err error
 		if t.lastSyncedOffset.Load() != lastAppendedOffset {
 			timer := t.syncLatency.Timer()
+			if vhook.Enabled {
+				vhook.At("wal.sync.before-flush", t)
+			}
 			if err = segment.Flush(); err != nil {
 				t.writeErrors.Inc()
 			} else {
 				timer.Done()
 				t.lastSyncedOffset.Store(lastAppendedOffset)
+				if vhook.Enabled {
+					vhook.At("wal.sync.flushed", t, t.lastSyncedOffset.Load())
+				}
 			}
 		}
 
